@@ -2,7 +2,7 @@
    Statements only.  [r] ranges over every request: any file content, any Range /
    If-Range text, method, chunk size, validator strings, content type, boundary. *)
 From Coq Require Import List NArith Arith.
-From Baize Require Import Lib.Wire C03.Model C02.Model C02.Proofs.
+From Baize Require Import Lib.Wire Lib.Order C03.Model C02.Model C02.Proofs.
 Import ListNotations.
 
 (* WSGI: the concatenation of the yielded chunks is exactly the expected body
